@@ -1376,6 +1376,15 @@ pub fn run(ctx: &mut Ctx) -> Step {
         if !mates.is_empty() && start.hmc == 99 {
             ctx.stats.bump("probe.mate-in-one-at-clock-99");
         }
+        for &m in &mates {
+            if start.sq[m.to as usize] != m1::EMPTY {
+                let after = start.make(m);
+                let others = after.sq.iter().filter(|&&x| x != m1::EMPTY && m1::kind_of(x) != m1::K).count();
+                if others <= 2 {
+                    ctx.stats.bump("probe.mate-in-one-by.capture-leaving-two-or-fewer-pieces");
+                }
+            }
+        }
     }
     let board = match op(Op::Parse, || sut::to_board(&start)) {
         Ok(b) => b,
